@@ -556,6 +556,7 @@ func checkC03(c *Ctx) {
 	// ---- C03.11 positive identification means this connection's own tag was revealed and found
 	r.Rule("C03.11", "the prefix transport identifies a peer only by the tag revealed from this connection's bytes", 1)
 	checkPrefixLookupKey(c, "C03.11")
+	checkAcceptToHandler(c, h)
 	r.Rule("C03.8", "the GeoIP wrappers report an error only when the database reader returned one", 2)
 	for _, m := range []string{"ASN", "CC"} {
 		f := c.fn("C03.8", "pkg/station/geoip", "maxMindDatabase", m)
@@ -897,4 +898,452 @@ func mustDrain(f *ssa.Function, idx int) bool {
 	}
 	skip, _ := reach(f, nil, isReturn, isDrain, nil)
 	return !skip
+}
+
+// connAliases: v and the values that are the same connection (interface conversions, phis).
+func connAliases(f *ssa.Function, v ssa.Value) map[ssa.Value]bool {
+	aliases := map[ssa.Value]bool{v: true}
+	for changed := true; changed; {
+		changed = false
+		eachInstr(f, func(in ssa.Instruction) {
+			switch x := in.(type) {
+			case *ssa.ChangeInterface:
+				if aliases[x.X] && !aliases[x] {
+					aliases[x], changed = true, true
+				}
+			case *ssa.MakeInterface:
+				if aliases[x.X] && !aliases[x] {
+					aliases[x], changed = true, true
+				}
+			case *ssa.Phi:
+				for _, e := range x.Edges {
+					if aliases[e] && !aliases[x] {
+						aliases[x], changed = true, true
+					}
+				}
+			case *ssa.FieldAddr:
+				// the embedded connection of *net.TCPConn / *net.UDPConn (receiver of the promoted methods)
+				if aliases[x.X] && !aliases[x] {
+					if st, ok := x.X.Type().Underlying().(*types.Pointer); ok {
+						if stt, ok := st.Elem().Underlying().(*types.Struct); ok && stt.Field(x.Field).Embedded() {
+							aliases[x], changed = true, true
+						}
+					}
+				}
+			}
+		})
+	}
+	return aliases
+}
+
+// checkAcceptToHandler (C03.13): the classification handler is the only code that decides what happens to a peer.
+// Between the listener's Accept and the handler (a) the accepted connection is handed to the handler goroutine and
+// to nothing else, whatever any other condition says (a connection cap, a per-source limiter or a shutdown test that
+// closes or skips a freshly accepted connection answers a probe at once, before the 5-10 s deadline); (b) the
+// function the goroutine runs touches the connection only through File(), the address accessors, a *deferred* Close
+// and the hand-over to the handler, and reaches the handler unless a call on the connection (or on its descriptor)
+// reported an error.
+func checkAcceptToHandler(c *Ctx, h *ssa.Function) {
+	r := c.R
+	r.Rule("C03.13", "an accepted connection goes to the classification handler and to nothing else; the path from Accept to the handler depends only on errors of calls on that connection", 2)
+	nAccept := 0
+	for _, f := range c.funcsOfPkgs("cmd/application") {
+		for _, ff := range withAnon(f) {
+			eachInstr(ff, func(in ssa.Instruction) {
+				call, ok := in.(*ssa.Call)
+				if !ok {
+					return
+				}
+				cc := &call.Call
+				mname := ""
+				if cc.IsInvoke() {
+					mname = cc.Method.Name()
+				} else if sc := cc.StaticCallee(); sc != nil && sc.Signature.Recv() != nil {
+					mname = sc.Name()
+				}
+				if mname != "Accept" && mname != "AcceptTCP" {
+					return
+				}
+				rt := ""
+				if cc.IsInvoke() {
+					rt = typeShort(cc.Value.Type())
+				} else if len(cc.Args) > 0 {
+					rt = typeShort(cc.Args[0].Type())
+				}
+				if !strings.Contains(rt, "net.") || !strings.Contains(rt, "Listener") {
+					return
+				}
+				nAccept++
+				conns := extractOf(call, 0)
+				if len(conns) == 0 {
+					r.Unk("C03.13", fnName(ff)+": accepted connection", call.Pos(), fnName(ff), "the connection result of "+mname+" is not used")
+					return
+				}
+				aliases := map[ssa.Value]bool{}
+				for _, cv := range conns {
+					for a := range connAliases(ff, cv) {
+						aliases[a] = true
+					}
+				}
+				var gos []*ssa.Go
+				bad := false
+				for a := range aliases {
+					if a.Referrers() == nil {
+						continue
+					}
+					for _, ref := range *a.Referrers() {
+						switch x := ref.(type) {
+						case *ssa.Go:
+							callee := x.Call.StaticCallee()
+							uses := false
+							for _, arg := range x.Call.Args {
+								if aliases[arg] {
+									uses = true
+								}
+							}
+							if callee != nil && isRepoPath(fnPkgPath(callee)) && uses && !(x.Call.IsInvoke()) {
+								gos = append(gos, x)
+								continue
+							}
+							bad = true
+							r.Bad("C03.13", fnName(ff)+": accepted connection used by go "+shortName(pathOfCallee(&x.Call)), x.Pos(), fnName(ff), "the accepted connection is handed to a goroutine that is not a function of the station")
+						case *ssa.ChangeInterface, *ssa.MakeInterface, *ssa.Phi, *ssa.DebugRef, *ssa.FieldAddr:
+						case *ssa.BinOp:
+							// comparison with nil
+						default:
+							if v, isV := ref.(ssa.Value); isV && aliases[v] {
+								continue
+							}
+							bad = true
+							r.Bad("C03.13", fnName(ff)+": accepted connection used by "+firstN(instrText(ref), 60), ref.Pos(), fnName(ff),
+								"between Accept and the classification handler the connection is closed, written to or handed elsewhere: a peer that never presented a tag is answered before its deadline")
+						}
+					}
+				}
+				if bad {
+					return
+				}
+				if len(gos) == 0 {
+					r.Unk("C03.13", fnName(ff)+": hand-over of the accepted connection", call.Pos(), fnName(ff), "no go statement receives the accepted connection")
+					return
+				}
+				errA := errAtoms(call, true)
+				isErrNil := atomMatcher(errA...)
+				var extra []string
+				for _, g := range gos {
+					g := g
+					okk := reachGameFrom(ff, call.Block(), g, func(bl *ssa.BasicBlock) int {
+						iff, ok := bl.Instrs[len(bl.Instrs)-1].(*ssa.If)
+						if !ok {
+							return gameAny
+						}
+						cnd, pol := normCond(iff.Cond)
+						if isErrNil(cnd, pol) {
+							return gameSucc0
+						}
+						if isErrNil(cnd, !pol) {
+							return gameSucc1
+						}
+						extra = append(extra, cnd)
+						return gameAll
+					})
+					r.Check(okk, "C03.13", fnName(ff)+": every accepted connection is handed to "+shortName(fnName(g.Call.StaticCallee())), g.Pos(), fnName(ff),
+						"from a successful "+mname+" the go statement is reached whatever any other condition says",
+						"a successfully accepted connection does not always reach the classification handler ("+firstN(strings.Join(uniq(sortedCopy(extra)), ", "), 120)+" decides): the connection is closed or dropped at once, so a probe is answered before the 5-10 s deadline")
+					// (b) the goroutine's function
+					g0 := g.Call.StaticCallee()
+					if g0 == h || h == nil {
+						continue
+					}
+					idx := -1
+					for i, arg := range g.Call.Args {
+						if aliases[arg] {
+							idx = i
+						}
+					}
+					checkConnCarrier(c, g0, idx, h)
+				}
+			})
+		}
+	}
+	if nAccept == 0 {
+		r.Unk("C03.13", "accept loop of the station", token.NoPos, "", "no call of Accept / AcceptTCP on a net listener found in cmd/application")
+	}
+}
+
+func instrText(in ssa.Instruction) string {
+	if ci, ok := in.(ssa.CallInstruction); ok {
+		cc := ci.Common()
+		pre := ""
+		if _, isD := in.(*ssa.Defer); isD {
+			pre = "defer "
+		}
+		if cc.IsInvoke() {
+			return pre + typeShort(cc.Value.Type()) + "." + cc.Method.Name()
+		}
+		return pre + shortName(pathOfCallee(cc))
+	}
+	return in.String()
+}
+
+// checkConnCarrier: g receives the accepted connection as parameter idx and must carry it to the handler h.
+func checkConnCarrier(c *Ctx, g *ssa.Function, idx int, h *ssa.Function) {
+	r := c.R
+	if g.Blocks == nil || idx < 0 || idx >= len(g.Params) {
+		r.Unk("C03.13", fnName(g)+": carrier of the accepted connection", g.Pos(), fnName(g), "no body / connection parameter not identified")
+		return
+	}
+	conn := g.Params[idx]
+	aliases := connAliases(g, conn)
+	allowed := map[string]bool{"File": true, "RemoteAddr": true, "LocalAddr": true}
+	var toHandler []ssa.Instruction
+	bad := false
+	eachInstr(g, func(in ssa.Instruction) {
+		ci, ok := in.(ssa.CallInstruction)
+		if !ok {
+			return
+		}
+		cc := ci.Common()
+		recv := recvOf(cc)
+		m := ""
+		if cc.IsInvoke() {
+			m = cc.Method.Name()
+		} else if sc := cc.StaticCallee(); sc != nil && sc.Signature.Recv() != nil {
+			m = sc.Name()
+		}
+		if recv != nil && aliases[recv] {
+			_, isDefer := in.(*ssa.Defer)
+			_, isGo := in.(*ssa.Go)
+			switch {
+			case isGo:
+			case allowed[m] && !isDefer:
+				return
+			case m == "Close" && isDefer:
+				return
+			}
+			bad = true
+			r.Bad("C03.13", fnName(g)+": "+instrText(in)+" on the accepted connection", in.Pos(), fnName(g),
+				"before the classification handler runs, the connection is closed, written to or altered ("+m+"): a peer that never presented a tag is answered before its deadline")
+			return
+		}
+		for i, a := range argsOf(cc) {
+			if !aliases[a] {
+				continue
+			}
+			sc := cc.StaticCallee()
+			switch {
+			case sc == h:
+				if _, isCall := in.(*ssa.Call); isCall {
+					toHandler = append(toHandler, in)
+				} else {
+					bad = true
+					r.Bad("C03.13", fnName(g)+": the handler is started with "+instrText(in), in.Pos(), fnName(g), "the handler is deferred or detached while this function's deferred Close runs")
+				}
+			case sc != nil && isRepoPath(fnPkgPath(sc)) && onlyObserves(sc, i, 0):
+			case helperCallee(g, cc) != nil && helperOnlyInspects(helperCallee(g, cc), i, 0):
+			default:
+				bad = true
+				r.Bad("C03.13", fnName(g)+": accepted connection escapes into "+shortName(pathOfCallee(cc)), in.Pos(), fnName(g), "the unidentified connection is handed to code that may write to or close it")
+			}
+		}
+	})
+	if bad {
+		return
+	}
+	if len(toHandler) == 0 {
+		r.Unk("C03.13", fnName(g)+": hand-over to "+shortName(fnName(h)), g.Pos(), fnName(g), "the function started for an accepted connection does not call the classification handler directly")
+		return
+	}
+	var extra []string
+	target := toHandler[0]
+	okk := reachGame(g, target, func(bl *ssa.BasicBlock) int {
+		iff, ok := bl.Instrs[len(bl.Instrs)-1].(*ssa.If)
+		if !ok {
+			return gameAny
+		}
+		// a condition may matter only if it tests the error of a call made on the connection or on something
+		// obtained from it (its descriptor)
+		cnd, _ := normCond(iff.Cond)
+		if bo, ok := iff.Cond.(*ssa.BinOp); ok {
+			for _, side := range []ssa.Value{bo.X, bo.Y} {
+				if !types.Identical(side.Type(), types.Universe.Lookup("error").Type()) {
+					continue
+				}
+				if cst, isC := side.(*ssa.Const); isC && cst.Value == nil {
+					continue
+				}
+				if errOfCallOn(side, aliases, 0) {
+					return gameAny
+				}
+			}
+		}
+		// ... or the verdict of a helper of the package that only inspects the connection and fails only when such
+		// a call failed
+		if cv, _ := stripNot(iff.Cond); cv != nil {
+			if call, ridx, ok := boolCallOf(cv); ok {
+				if hc := helperCallee(g, &call.Call); hc != nil {
+					for i, a := range call.Call.Args {
+						if aliases[a] && helperOnlyInspects(hc, i, 0) && helperFailsOnlyOnConnErrors(hc, i, ridx) {
+							return gameAny
+						}
+					}
+				}
+			}
+		}
+		if hit, _ := reachAt(g, bl, isInstr(target), nil, nil); !hit {
+			return gameAny
+		}
+		extra = append(extra, cnd)
+		return gameAll
+	})
+	r.Check(okk, "C03.13", fnName(g)+": reaches "+shortName(fnName(h))+" unless a call on the connection failed", target.Pos(), fnName(g),
+		"the handler call is reached whatever the outcome of every condition other than error tests of calls on the connection / its descriptor",
+		"an accepted connection is closed (deferred Close) without ever reaching the classification handler when "+firstN(strings.Join(uniq(sortedCopy(extra)), ", "), 120)+" goes the wrong way: a probe is answered before the 5-10 s deadline")
+}
+
+// errOfCallOn: v is (a phi / load of a local holding) the error result of a call whose receiver or arguments derive
+// from the connection.
+func errOfCallOn(v ssa.Value, aliases map[ssa.Value]bool, depth int) bool {
+	if depth > 4 {
+		return false
+	}
+	switch x := v.(type) {
+	case *ssa.Extract:
+		return errOfCallOn(x.Tuple, aliases, depth+1)
+	case *ssa.Phi:
+		for _, e := range x.Edges {
+			if cst, isC := e.(*ssa.Const); isC && cst.Value == nil {
+				continue
+			}
+			if !errOfCallOn(e, aliases, depth+1) {
+				return false
+			}
+		}
+		return len(x.Edges) > 0
+	case *ssa.UnOp:
+		if a, ok := x.X.(*ssa.Alloc); ok && x.Op == token.MUL && a.Referrers() != nil {
+			n, all := 0, true
+			for _, ref := range *a.Referrers() {
+				if st, ok := ref.(*ssa.Store); ok && st.Addr == a {
+					if cst, isC := st.Val.(*ssa.Const); isC && cst.Value == nil {
+						continue
+					}
+					n++
+					all = all && errOfCallOn(st.Val, aliases, depth+1)
+				}
+			}
+			return n > 0 && all
+		}
+	case *ssa.Call:
+		for _, a := range append([]ssa.Value{}, x.Call.Args...) {
+			for al := range aliases {
+				if a == al || dependsOn(a, al) {
+					return true
+				}
+			}
+		}
+		if x.Call.IsInvoke() {
+			for al := range aliases {
+				if x.Call.Value == al || dependsOn(x.Call.Value, al) {
+					return true
+				}
+			}
+		}
+	}
+	return false
+}
+
+// helperOnlyInspects: f uses its connection parameter idx only through File() and the address accessors, or hands it
+// to functions that do the same.
+func helperOnlyInspects(f *ssa.Function, idx int, depth int) bool {
+	if f == nil || f.Blocks == nil || idx < 0 || idx >= len(f.Params) || depth > 2 {
+		return false
+	}
+	aliases := connAliases(f, f.Params[idx])
+	allowed := map[string]bool{"File": true, "RemoteAddr": true, "LocalAddr": true}
+	ok := true
+	eachInstr(f, func(in ssa.Instruction) {
+		ci, isCall := in.(ssa.CallInstruction)
+		if !isCall {
+			if st, isSt := in.(*ssa.Store); isSt && aliases[st.Val] {
+				if _, local := st.Addr.(*ssa.Alloc); !local {
+					ok = false
+				}
+			}
+			return
+		}
+		cc := ci.Common()
+		if recv := recvOf(cc); recv != nil && aliases[recv] {
+			m := ""
+			if cc.IsInvoke() {
+				m = cc.Method.Name()
+			} else if sc := cc.StaticCallee(); sc != nil {
+				m = sc.Name()
+			}
+			if _, isCallI := in.(*ssa.Call); !isCallI || !allowed[m] {
+				ok = false
+			}
+			return
+		}
+		for i, a := range argsOf(cc) {
+			if !aliases[a] {
+				continue
+			}
+			sc := cc.StaticCallee()
+			switch {
+			case sc != nil && isRepoPath(fnPkgPath(sc)) && onlyObserves(sc, i, 0):
+			case helperCallee(f, cc) != nil && helperOnlyInspects(helperCallee(f, cc), i, depth+1):
+			default:
+				ok = false
+			}
+		}
+	})
+	return ok
+}
+
+// helperFailsOnlyOnConnErrors: result ridx of f (a bool, or an error) reports success (true / nil) whatever any
+// condition says other than the error tests of calls made on the connection parameter idx or on its descriptor.
+func helperFailsOnlyOnConnErrors(f *ssa.Function, idx, ridx int) bool {
+	aliases := connAliases(f, f.Params[idx])
+	won := false
+	eachInstr(f, func(in ssa.Instruction) {
+		ret, ok := in.(*ssa.Return)
+		if !ok || won || ridx >= len(ret.Results) {
+			return
+		}
+		cst, isC := returnedValue(ret, ridx, nil).(*ssa.Const)
+		if !isC {
+			return
+		}
+		success := cst.Value == nil && !isBoolType(cst.Type()) || cst.Value != nil && cst.Value.Kind() == constant.Bool && constant.BoolVal(cst.Value)
+		if !success {
+			return
+		}
+		won = reachGame(f, ret, func(bl *ssa.BasicBlock) int {
+			iff, ok := bl.Instrs[len(bl.Instrs)-1].(*ssa.If)
+			if !ok {
+				return gameAny
+			}
+			if bo, ok := iff.Cond.(*ssa.BinOp); ok {
+				for _, side := range []ssa.Value{bo.X, bo.Y} {
+					if cst, isC := side.(*ssa.Const); isC && cst.Value == nil {
+						continue
+					}
+					if types.Identical(side.Type(), types.Universe.Lookup("error").Type()) && errOfCallOn(side, aliases, 0) {
+						return gameAny
+					}
+				}
+			}
+			if hit, _ := reachAt(f, bl, isInstr(ret), nil, nil); !hit {
+				return gameAny
+			}
+			return gameAll
+		})
+	})
+	return won
+}
+
+func isBoolType(t types.Type) bool {
+	b, ok := t.Underlying().(*types.Basic)
+	return ok && b.Info()&types.IsBoolean != 0
 }
